@@ -52,7 +52,14 @@ func verifDBNamedExec(n *Node, db *sqlx.DB, ctx *verifCtx, queryName string, arg
 
 type verifRows struct {
 	has, consumed, closed bool
+	err                   error // the cursor broke before a row could be read (rows.Err())
 }
+
+// verifRowsError: returned by verifInner for a query whose result set breaks mid-way: the call
+// itself succeeds, Next() reports no row and Err() reports the error.
+type verifRowsError struct{ Err error }
+
+func (e *verifRowsError) Error() string { return "cursor: " + e.Err.Error() }
 
 func (r *verifRows) Next() bool {
 	if r.has && !r.consumed {
@@ -62,7 +69,7 @@ func (r *verifRows) Next() bool {
 	return false
 }
 func (r *verifRows) StructScan(dest any) error { return nil }
-func (r *verifRows) Err() error               { return nil }
+func (r *verifRows) Err() error               { return r.err }
 func (r *verifRows) Close() error             { r.closed = true; return nil }
 
 var verifOpenRows int // cursors opened and not closed
@@ -74,6 +81,10 @@ func verifDBQueryRow(n *Node, db *sqlx.DB, ctx *verifCtx, queryName string, arg 
 		return &verifRows{has: true}, nil
 	case err == sql.ErrNoRows:
 		return &verifRows{}, nil
+	}
+	var re *verifRowsError
+	if errors.As(err, &re) {
+		return &verifRows{err: ctx.note(re.Err)}, nil
 	}
 	return nil, ctx.note(err)
 }
